@@ -67,31 +67,61 @@ def _strip_stamp(text):
 # --------------------------------------------------------------------------
 # building the real objects from a case
 # --------------------------------------------------------------------------
+def _num(x, kind):
+    """Number in the requested Python type: float, int (when integral) or numpy scalar."""
+    import numpy as np
+    if kind == 'int' and float(x) == int(x):
+        return int(x)
+    if kind == 'numpy':
+        return np.int64(int(x)) if float(x) == int(x) else np.float64(x)
+    return x
+
+
+def _rx_string(case, r):
+    sp = case['species']
+    side = lambda terms: '+'.join(('%d%s' % (c, sp[i - 1]['name']) if c != 1 else sp[i - 1]['name']) for c, i in terms)
+    mid = '=%s=' % case['ts'][r['ts'] - 1]['name'] if r['ts'] else '='
+    return side(r['lhs']) + mid + side(r['rhs'])
+
+
 def build(case):
     from pmutt.empirical.nasa import Nasa
     from pmutt.chemkin import CatSite
     from pmutt.reaction import ChemkinReaction, Reactions
-    sites = [CatSite(name=s['name'], site_density=s['sden'], density=s['dens'], bulk_specie=s['bulk'])
+    from pmutt.reaction.bep import BEP
+    from pmutt import pmutt_list_to_dict
+    nk = case['opts'].get('numkind', 'float')
+    sites = [CatSite(name=s['name'], site_density=s['sden'], density=_num(s['dens'], nk), bulk_specie=s['bulk'])
              for s in case['sites']]
 
     def nasa(d):
         a = [d['a1'], d['a2'], 0., 0., 0., d['a6'], d['a7']]
         kw = {}
         if d['site']:
-            kw = {'cat_site': sites[d['site'] - 1], 'n_sites': d['occ']}
+            kw = {'cat_site': sites[d['site'] - 1], 'n_sites': _num(float(d['occ']) if nk == 'float' else d['occ'], nk)}
         return Nasa(name=d['name'], T_low=100., T_mid=1500., T_high=4000., a_low=a, a_high=a,
                     phase=d['ph'], elements=dict(d['els']), **kw)
     species = [nasa(d) for d in case['species']]
-    ts = [nasa(d) for d in case.get('ts', [])]
+    ts = [BEP(slope=d['slope'], intercept=d['intercept'], name=d['name'], descriptor=d['descriptor'])
+          if d.get('kind') == 'bep' else nasa(d) for d in case.get('ts', [])]
+    by_name = pmutt_list_to_dict(species + [t for t, d in zip(ts, case.get('ts', [])) if d.get('kind') != 'bep'])
     rxs = []
     for r in case['rx']:
-        kw = {}
-        if r['ts']:
-            kw = {'transition_state': [ts[r['ts'] - 1]], 'transition_state_stoich': [1.]}
-        rxs.append(ChemkinReaction(
-            reactants=[species[i - 1] for c, i in r['lhs']], reactants_stoich=[float(c) for c, i in r['lhs']],
-            products=[species[i - 1] for c, i in r['rhs']], products_stoich=[float(c) for c, i in r['rhs']],
-            beta=r['beta'], is_adsorption=r['ads'], sticking_coeff=r['stick'], **kw))
+        beta, stick = _num(r['beta'], nk), _num(r['stick'], nk)
+        if r.get('ctor') == 'from_string':
+            rx = ChemkinReaction.from_string(_rx_string(case, r), by_name, beta=beta,
+                                             is_adsorption=r['ads'], sticking_coeff=stick)
+        else:
+            kw = {}
+            if r['ts']:
+                kw = {'transition_state': [ts[r['ts'] - 1]], 'transition_state_stoich': [_num(1., nk)]}
+            rx = ChemkinReaction(
+                reactants=[species[i - 1] for c, i in r['lhs']], reactants_stoich=[_num(float(c), nk) for c, i in r['lhs']],
+                products=[species[i - 1] for c, i in r['rhs']], products_stoich=[_num(float(c), nk) for c, i in r['rhs']],
+                beta=beta, is_adsorption=r['ads'], sticking_coeff=stick, **kw)
+            if r['ts'] and case['ts'][r['ts'] - 1].get('kind') == 'bep':
+                ts[r['ts'] - 1].reaction = rx
+        rxs.append(rx)
     return sites, species, rxs, Reactions(reactions=rxs)
 
 
@@ -136,6 +166,8 @@ def _witness(r, method, conds, unit, acct):
     ts = r.transition_state
     if form == 'E' and ts is None:
         return {'ok': False, 'w': []}
+    if ts is not None and any(type(t).__name__ == 'BEP' for t in ts):
+        return {'ok': False, 'w': []}           # a BEP barrier is not a species property (C09)
     try:
         out = []
         for cond in conds:
@@ -165,7 +197,7 @@ def _witness(r, method, conds, unit, acct):
         return {'ok': False, 'w': []}
 
 
-def _write_event(ev, call, d, fname, extra):
+def _write_event(ev, call, d, fname, extra, newline='\n'):
     """call(filename) runs the real writer.  Returns (event, returned text or None)."""
     e = {'ev': ev, 'raised': '', 'same': True, 'lines': []}
     e.update(extra)
@@ -175,7 +207,8 @@ def _write_event(ev, call, d, fname, extra):
         call(path)
         with open(path, newline='') as f:
             disk = f.read()
-        e['same'] = _strip_stamp(disk) == _strip_stamp(text)
+        e['same'] = _strip_stamp(disk.replace(newline, '\n') if newline != '\n' else disk) == _strip_stamp(text) \
+            and (newline == '\n' or disk.count('\n') == disk.count(newline))
         e['lines'] = lex(text)
         return e, path
     except core.MachineryError:
@@ -215,15 +248,23 @@ def execute(case):
         return events, [{'raised': 'construction: ' + _exc(ex)}]
     d = tempfile.mkdtemp(prefix='c06_')
     try:
-        kw = {'T': o['T']}
+        import numpy as np
+        nk = o.get('numkind', 'float')
+        dflt = bool(o.get('defaults'))
+        nl = o.get('newline', '\n')
+        kw = {'T': _num(o['T'], nk)}
         if o.get('P') is not None:
-            kw['P'] = o['P']
+            kw['P'] = _num(o['P'], nk)
         act, ads_act, unit = o['act'], o['ads_act'], o['unit']
         ukw = {} if 'oRT' in act else {'units': unit}
         aukw = {} if 'oRT' in ads_act else {'units': unit}
-        fmt = {'species_delimiter': o['sd'], 'reaction_delimiter': o['rd'], 'float_format': o['ff'],
-               'column_delimiter': o['cd'], 'act_method_name': act, 'act_unit': unit,
-               'stoich_format': o.get('sf', '.0f')}
+        fmt = {} if dflt else {'species_delimiter': o['sd'], 'reaction_delimiter': o['rd'], 'float_format': o['ff'],
+                               'column_delimiter': o['cd'], 'act_method_name': act, 'act_unit': unit,
+                               'stoich_format': o.get('sf', '.0f'), 'newline': nl}
+        wkw = {} if dflt else kw                         # defaults: T is left at its default as well
+        seq = {'list': list, 'tuple': tuple, 'ndarray': list}[o.get('seq_container', 'list')]
+        rx_arg = reactions if o.get('rx_container', 'Reactions') == 'Reactions' else list(rxs)
+        species_arg = seq(species)
 
         acct = {}
         events[0]['acct'] = acct
@@ -243,63 +284,64 @@ def execute(case):
                                  r.beta, getattr(r, act)(**dict(kw, **ukw))])
         # gas.inp
         e, gpath = _write_event(
-            'write_gas', lambda fn: ck.write_gas(nasa_species=species, reactions=reactions,
-                                                 filename=fn, **dict(fmt, **kw)),
+            'write_gas', lambda fn: ck.write_gas(nasa_species=species_arg, reactions=rx_arg,
+                                                 filename=fn, **dict(fmt, **wkw)),
             d, 'gas.inp', {'model': [model(r, None, None) for r in rxs],
-                           'wit': [wit(r, None) for r in rxs]})
+                           'wit': [wit(r, None) for r in rxs]}, nl)
         events.append(e)
         if gpath:
             events.append(_read_event('gas', gpath, species))
         # surf.inp
-        unit_toks = [] if 'oRT' in act else [t for t in unit.upper().split('/') if t]
+        unit_toks = [] if 'oRT' in act else [t for t in re.split(r'[\s/]+', unit.upper()) if t]
+        skw = {} if dflt else {'sden_operation': o['sden_op'], 'ads_act_method': ads_act,
+                               'use_mw_correction': o['mw']}
         e, spath = _write_event(
             'write_surf', lambda fn: ck.write_surf(reactions=reactions, filename=fn,
-                                                   sden_operation=o['sden_op'], ads_act_method=ads_act,
-                                                   use_mw_correction=o['mw'], **dict(fmt, **kw)),
+                                                   **dict(skw, **dict(fmt, **wkw))),
             d, 'surf.inp', {'model': [model(r, o['sden_op'], ads_act) for r in rxs],
                             'wit': [wit(r, ads_act) for r in rxs],
-                            'mw': 'MWON' if o['mw'] else 'MWOFF', 'unit': unit_toks})
+                            'mw': 'MWON' if o['mw'] else 'MWOFF', 'unit': unit_toks}, nl)
         events.append(e)
         if spath:
             events.append(_read_event('surf', spath, species))
         # EAg.inp / EAs.inp
-        conds = o['conds']
+        conds = [{key: _num(v, nk) for key, v in c.items()} for c in o['conds']]
+        conds_arg = seq(conds)
+        eakw = {} if dflt else {'act_method_name': o['ea_act'], 'ads_act_method': o['ea_ads_act'],
+                                'float_format': o['ea_ff'], 'species_delimiter': o['sd'],
+                                'reaction_delimiter': o['ea_rd'], 'stoich_format': o.get('sf', '.0f'),
+                                'column_delimiter': o['cd'], 'newline': nl}
         for gas in (True, False):
             def ea_model(r):
                 m = o['ea_ads_act'] if r.is_adsorption else o['ea_act']
                 return _val(lambda: [getattr(r, m)(**c) for c in conds])
             e, _ = _write_event(
-                'write_ea', lambda fn: ck.write_EA(reactions=reactions, conditions=conds,
-                                                   write_gas_phase=gas, filename=fn,
-                                                   act_method_name=o['ea_act'],
-                                                   ads_act_method=o['ea_ads_act'],
-                                                   float_format=o['ea_ff'], species_delimiter=o['sd'],
-                                                   reaction_delimiter=o['ea_rd'],
-                                                   stoich_format=o.get('sf', '.0f'),
-                                                   column_delimiter=o['cd']),
+                'write_ea', lambda fn: ck.write_EA(reactions=rx_arg, conditions=conds_arg,
+                                                   write_gas_phase=gas, filename=fn, **eakw),
                 d, 'EAg.inp' if gas else 'EAs.inp',
                 {'gas': gas, 'ncond': len(conds), 'model': [ea_model(r) for r in rxs],
                  'wit': [_witness(r, o['ea_ads_act'] if r.is_adsorption else o['ea_act'], conds, unit, acct)
-                         for r in rxs]})
+                         for r in rxs]}, nl)
             events.append(e)
-        # T_flow.inp
+        # T_flow.inp (columns as list / tuple / numpy array)
+        col = np.array if o.get('seq_container') == 'ndarray' else seq
         e, _ = _write_event(
-            'write_tflow', lambda fn: ck.write_T_flow(T=[c['T'] for c in conds], P=[c['P'] for c in conds],
-                                                     Q=[c['Q'] for c in conds],
-                                                     abyv=[c['abyv'] for c in conds], filename=fn,
-                                                     float_format=o['tflow_ff'], column_delimiter=o['cd']),
-            d, 'T_flow.inp', {'model': [[to_dec(c[k]) for k in ('T', 'P', 'Q', 'abyv')] for c in conds]})
+            'write_tflow', lambda fn: ck.write_T_flow(
+                filename=fn, **dict({key: col([c[key] for c in conds]) for key in ('T', 'P', 'Q', 'abyv')},
+                                    **({} if dflt else {'float_format': o['tflow_ff'], 'column_delimiter': o['cd'],
+                                                        'newline': nl}))),
+            d, 'T_flow.inp', {'model': [[to_dec(c[k]) for k in ('T', 'P', 'Q', 'abyv')] for c in conds]}, nl)
         events.append(e)
         # tube_mole.inp
-        fracs = o['fracs']
+        fracs = [{key: _num(v, nk) for key, v in f.items()} for f in o['fracs']]
         named = sorted(set(k for f in fracs for k in f))
         e, _ = _write_event(
-            'write_tube', lambda fn: ck.write_tube_mole(mole_frac_conditions=fracs, nasa_species=species,
-                                                       filename=fn, float_format=o['tube_ff'],
-                                                       column_delimiter=o['cd']),
+            'write_tube', lambda fn: ck.write_tube_mole(
+                mole_frac_conditions=seq(fracs), nasa_species=species_arg, filename=fn,
+                **({} if dflt else {'float_format': o['tube_ff'], 'column_delimiter': o['cd'], 'newline': nl})),
             d, 'tube_mole.inp',
             {'ncond': len(fracs), 'F': [core.text_codes(n) for n in named],
-             'model': [[to_dec(f.get(s['name'], 0.)) for f in fracs] for s in case['species']]})
+             'model': [[to_dec(f.get(s['name'], 0.)) for f in fracs] for s in case['species']]}, nl)
         events.append(e)
     finally:
         shutil.rmtree(d, ignore_errors=True)
@@ -322,9 +364,22 @@ ACTS = ['get_E_act', 'get_H_act', 'get_G_act', 'get_EoRT_act', 'get_HoRT_act', '
 ADS_ACTS = ['get_H_act', 'get_G_act', 'get_HoRT_act', 'get_GoRT_act']
 EA_ACTS = ['get_EoRT_act', 'get_HoRT_act', 'get_GoRT_act']
 EA_ADS_ACTS = ['get_HoRT_act', 'get_GoRT_act']
-UNITS = ['kcal/mol', 'J/mol', 'kJ/mol', 'cal/mol', 'eV']
-FLOATS = [' .3E', '.3E', ' .2E', '.5E', ' .4E', '.1E']
+# every unit pmutt.constants.R documents (without the /K)
+UNITS = ['J/mol', 'kJ/mol', 'L kPa/mol', 'cm3 kPa/mol', 'm3 Pa/mol', 'cm3 MPa/mol', 'm3 bar/mol',
+         'L bar/mol', 'L torr/mol', 'cal/mol', 'kcal/mol', 'L atm/mol', 'cm3 atm/mol', 'eV', 'Eh', 'Ha']
+FLOATS = [' .3E', '.3E', ' .2E', '.5E', ' .4E', '.1E', '.0E', ' .3e']
+SDELIMS = ['+', ' + ', '+ ']
+RDELIMS = ['=', '<=>', '=>', ' = ', ' <=> ', ' => ']
+CDELIMS = ['  ', ' ', '    ', '\t']
+SDEN_OPS = ['min', 'max', 'sum', 'mean', 'median']
+NUMKINDS = ['float', 'int', 'numpy']
 ELEMS = ['H', 'C', 'O', 'N', 'Pt', 'Ru', 'Cu']
+DEFAULTS = {'T': 298.15, 'P': None, 'act': 'get_E_act', 'ads_act': 'get_H_act', 'unit': 'kcal/mol',
+            'ff': ' .3E', 'sf': '.0f', 'sd': '+', 'rd': '=', 'cd': '  ', 'sden_op': 'min', 'mw': True,
+            'ea_act': 'get_EoRT_act', 'ea_ads_act': 'get_HoRT_act', 'ea_ff': ' .2E', 'ea_rd': '<=>',
+            'tflow_ff': '.3E', 'tube_ff': ' .3f', 'newline': '\n'}
+# sizes at the ends of the quantifier's ranges (reactions 1-40, species 2-30), forced by rotation
+SIZES = [(40, 30), (1, 2), (39, 29), (2, 3)]
 
 
 def _thermo(rnd):
@@ -332,41 +387,65 @@ def _thermo(rnd):
             'a6': round(rnd.uniform(-4e4, 2e4), 1), 'a7': round(rnd.uniform(-5., 30.), 3)}
 
 
-def _options(rnd, species, need_ts_free, runs=None):
-    """need_ts_free: some non-adsorption reaction has no transition state (E methods excluded)."""
+def _options(rnd, species, need_ts_free, runs=None, k=0):
+    """need_ts_free: some non-adsorption reaction has no transition state (E methods excluded).
+    k rotates through the enumerations so that every unit / method / format / delimiter / number
+    kind occurs in every run; the rest is drawn."""
     acts = [a for a in ACTS if not (need_ts_free and 'E' in a.split('_')[1])]
     ea_acts = [a for a in EA_ACTS if not (need_ts_free and a == 'get_EoRT_act')]
-    conds = _conditions(rnd, runs)
+    numkind = NUMKINDS[k % 3]
+    conds = _conditions(rnd, runs, numkind, nruns=[None, 1, 8, 2, 7, None, None][k % 7])
     names = [s['name'] for s in species]
     fracs = []
-    for _ in range(rnd.randint(1, 8)):
+    nf = [None, 1, 8][k % 3] or rnd.randint(1, 8)
+    for j in range(nf):
         ks = rnd.sample(names, rnd.randint(1, min(len(names), 6)))
-        fracs.append({k: rnd.choice([0., 1., 0.5, 0.125, round(rnd.random(), rnd.choice([2, 3, 5]))])
-                      for k in ks})
-    return {'T': rnd.choice([298.15, 500., round(rnd.uniform(300., 1100.), 1)]),
-            'P': rnd.choice([None, None, 1., 2.5, 0.1]),
-            'act': rnd.choice(acts), 'ads_act': rnd.choice(ADS_ACTS), 'unit': rnd.choice(UNITS),
-            'ff': rnd.choice(FLOATS), 'sf': rnd.choice(['.0f', '.0f', '.2f', '.1f']), 'sd': rnd.choice(['+', '+', ' + ']),
-            'rd': rnd.choice(['=', '<=>', '=>', ' = ', ' <=> ']), 'cd': rnd.choice(['  ', ' ', '    ']),
-            'sden_op': rnd.choice(['min', 'max', 'sum', 'mean']), 'mw': rnd.random() < 0.7,
-            'ea_act': rnd.choice(ea_acts), 'ea_ads_act': rnd.choice(EA_ADS_ACTS),
-            'ea_ff': rnd.choice([' .2E', '.2E', ' .3E', '.4E']), 'ea_rd': rnd.choice(['<=>', '=', ' <=> ']),
-            'tflow_ff': rnd.choice(['.3E', '.2E', ' .4E', '.5E']),
-            'tube_ff': rnd.choice([' .3f', '.3f', ' .5f', '.2E']),
-            'conds': conds, 'fracs': fracs}
+        if k % 5 == 0 and j == 0:
+            ks = list(names)                               # every species named
+        vals = [0, 1] if numkind == 'int' else [0., 1., 0.5, 0.125, round(rnd.random(), rnd.choice([2, 3, 5]))]
+        fracs.append({n: rnd.choice(vals) for n in ks})
+    o = {'T': rnd.choice([298.15, 500., round(rnd.uniform(300., 1100.), 1)]),
+         'P': rnd.choice([None, None, 1., 2.5, 0.1]),
+         'act': acts[k % len(acts)], 'ads_act': ADS_ACTS[(k // 2) % 4], 'unit': UNITS[k % 16],
+         'ff': FLOATS[k % len(FLOATS)], 'sf': rnd.choice(['.0f', '.0f', '.2f', '.1f']),
+         'sd': SDELIMS[k % 3], 'rd': RDELIMS[(k // 3) % 6], 'cd': CDELIMS[(k // 2) % 4],
+         'sden_op': SDEN_OPS[k % 5], 'mw': k % 3 != 0,
+         'ea_act': ea_acts[(k // 3) % len(ea_acts)], 'ea_ads_act': EA_ADS_ACTS[(k // 5) % 2],
+         'ea_ff': rnd.choice([' .2E', '.2E', ' .3E', '.4E', ' .2e']), 'ea_rd': rnd.choice(['<=>', '=', ' <=> ', '=>']),
+         'tflow_ff': rnd.choice(['.3E', '.2E', ' .4E', '.5E', '.3e']),
+         'tube_ff': rnd.choice([' .3f', '.3f', ' .5f', '.2E']),
+         'newline': ['\n', '\r\n'][(k // 4) % 2]}
+    if numkind != 'float':
+        o['T'] = rnd.choice([300., 500., 1000.])
+        if o['P'] is not None:
+            o['P'] = rnd.choice([1., 2., 10.])
+    if k % 12 == 5 and not need_ts_free:                   # every option left at its documented default
+        o = dict(DEFAULTS)
+        o['defaults'] = True
+    o.update({'numkind': numkind, 'rx_container': ['Reactions', 'list'][(k // 3) % 2],
+              'seq_container': ['list', 'tuple', 'ndarray'][(k // 2) % 3], 'conds': conds, 'fracs': fracs})
+    return o
 
 
-def _conditions(rnd, runs=None):
+def _conditions(rnd, runs=None, numkind='float', nruns=None):
     """Run list.  runs = a TLC run pattern (sequence of <<T index, P index>>) or None: a random
     pattern of 1-8 runs over pools of 1-3 temperatures and 1-3 pressures, so that equal T with
     different P, repeated (T, P) pairs and different T with equal P all occur regularly."""
     if runs is None:
         nt, npr = rnd.randint(1, 3), rnd.randint(1, 3)
-        runs = [[rnd.randint(1, nt), rnd.randint(1, npr)] for _ in range(rnd.randint(1, 8))]
-    Ts = rnd.sample([300., 350., 425.5, 500., 650., 800., 975.25, 1100.], 3)
-    Ps = rnd.sample([0.1, 0.5, 1., 2., 5., 20., round(rnd.uniform(0.05, 40.), 3)], 3)
-    return [{'T': Ts[t - 1], 'P': Ps[p - 1], 'Q': round(rnd.uniform(0.5, 500.), 2),
-             'abyv': round(rnd.uniform(1., 2000.), 1)} for t, p in runs]
+        runs = [[rnd.randint(1, nt), rnd.randint(1, npr)] for _ in range(nruns or rnd.randint(1, 8))]
+    if numkind == 'float':
+        Ts = rnd.sample([300., 350., 425.5, 500., 650., 800., 975.25, 1100.], 3)
+        Ps = rnd.sample([0.1, 0.5, 1., 2., 5., 20., round(rnd.uniform(0.05, 40.), 3)], 3)
+        return [{'T': Ts[t - 1], 'P': Ps[p - 1], 'Q': round(rnd.uniform(0.5, 500.), 2),
+                 'abyv': round(rnd.uniform(1., 2000.), 1)} for t, p in runs]
+    Ts = rnd.sample([300., 350., 500., 650., 800., 1100.], 3)        # integral values (int / numpy)
+    Ps = rnd.sample([1., 2., 5., 20., 40.], 3)
+    return [{'T': Ts[t - 1], 'P': Ps[p - 1], 'Q': float(rnd.randint(1, 500)),
+             'abyv': float(rnd.randint(1, 2000))} for t, p in runs]
+
+
+BEP_DESCRIPTORS = ['delta_H', 'rev_delta_H', 'reactants_H', 'products_H']
 
 
 def _finish_rx(rnd, case, rx, p_ts):
@@ -378,71 +457,100 @@ def _finish_rx(rnd, case, rx, p_ts):
     rx['stick'] = rnd.choice([0.5, 1., 0.1, round(rnd.uniform(0.001, 1.), 4)])
     rx['beta'] = rnd.choice([1., 0., 0.5, -1., 2., round(rnd.uniform(-2, 2), 2)])
     rx['ts'] = 0
+    rx['ctor'] = 'from_string' if rnd.random() < 0.3 else 'direct'
     if rnd.random() < (0.4 if rx['ads'] else p_ts):
-        site = max([sp[i - 1]['site'] for c, i in rx['lhs'] + rx['rhs']] + [0])
-        t = {'name': 'TS%d' % (len(case['ts']) + 1), 'ph': 'S' if site else 'G', 'site': site,
-             'bulk': False, 'occ': 1, 'els': {'H': 1}}
-        t.update(_thermo(rnd))
-        t['a6'] = round(t['a6'] + rnd.uniform(0., 3e4), 1)
+        if not rx['ads'] and rnd.random() < 0.15:
+            t = {'kind': 'bep', 'name': 'BEP%d' % (len(case['ts']) + 1), 'slope': rnd.choice([0., 0.5, 1., 0.37]),
+                 'intercept': round(rnd.uniform(0., 60.), 2), 'descriptor': rnd.choice(BEP_DESCRIPTORS)}
+            rx['ctor'] = 'direct'
+        else:
+            site = max([sp[i - 1]['site'] for c, i in rx['lhs'] + rx['rhs']] + [0])
+            t = {'name': 'TS%d' % (len(case['ts']) + 1), 'ph': 'S' if site else 'G', 'site': site,
+                 'bulk': False, 'occ': 1, 'els': {'H': 1}}
+            t.update(_thermo(rnd))
+            t['a6'] = round(t['a6'] + rnd.uniform(0., 3e4), 1)
         case['ts'].append(t)
         rx['ts'] = len(case['ts'])
     return rx
 
 
-def _name(rnd, taken, suffix):
+NAME_FIRST = 'ABCDEFGHIKLMNOPRSTXYZ'
+NAME_REST = 'ABCEHNOXabcex0123456789_*-,.#[]:'
+
+
+def _name(rnd, taken, suffix, length=None):
+    """Chemkin species / site names: start with a letter; letters, digits and _ * - , . # [ ] : ( );
+    1 to 16 characters (the Chemkin limit) and a few longer ones.  Never blank + < = > / ' !"""
     while True:
-        n = rnd.choice('ABCDEFGHIKLMNOPRSTXYZ') + ''.join(
-            rnd.choice('ABCEHNOXabcex0123456789_*') for _ in range(rnd.randint(0, 5))) + suffix
-        if n not in taken and n.upper() not in KEYWORDS and n not in KEYWORDS:
+        n_rest = rnd.randint(0, 5) if length is None else max(0, length - 1 - len(suffix))
+        n = rnd.choice(NAME_FIRST) + ''.join(rnd.choice(NAME_REST) for _ in range(n_rest)) + suffix
+        if length is not None and len(suffix) + 1 > length:
+            n = rnd.choice(NAME_FIRST)
+        if n not in taken and n.upper() not in KEYWORDS and n not in KEYWORDS and '->' not in n:
             taken.add(n)
             return n
 
 
-def random_case(rnd, cid, big):
-    nsites = rnd.randint(1, 3)
+def random_case(rnd, cid, big, k=0):
+    """k rotates the boundary classes (sizes, number of sites, gas-only / surface-only, name lengths)."""
+    forced = SIZES[(k // 8) % 4] if k % 8 == 0 else None
+    kind_mode = ['mixed', 'mixed', 'mixed', 'gas_only', 'surface_only', 'mixed', 'no_gas_species'][k % 7]
+    if forced:
+        kind_mode = 'mixed'
+    nsites = [1, 2, 3][k % 3]
     taken = set()
     sites, species = [], []
     for j in range(nsites):
-        sname = _name(rnd, taken, rnd.choice(['', '111', '_s']))
+        sname = _name(rnd, taken, rnd.choice(['', '111', '_s', '-110']), length=[None, None, 16, 1][(k + j) % 4])
         bname = _name(rnd, taken, '(B)')
         sites.append({'name': sname, 'bulk': bname, 'sden': float('%.4e' % rnd.uniform(1e-10, 5e-9)),
-                      'dens': round(rnd.uniform(1., 25.), rnd.choice([1, 2]))})
-    nsp = rnd.randint(2, 30 if big else 9)
-    for k in range(nsp):
+                      'dens': rnd.choice([round(rnd.uniform(1., 25.), rnd.choice([1, 2])), float(rnd.randint(1, 25))])})
+    nsp = forced[1] if forced else rnd.randint(2, 30 if big else 9)
+    nbulk = 0 if kind_mode == 'gas_only' else sum(1 for j in range(nsites) if rnd.random() < 0.8)
+    nbulk = min(nbulk, max(0, nsp - 2))
+    for m in range(nsp - nbulk):
         kind = rnd.random()
         els = {e: rnd.randint(1, 4) for e in rnd.sample(ELEMS, rnd.randint(1, 3))}
-        if kind < 0.4 or k == 0:
-            d = {'name': _name(rnd, taken, ''), 'ph': 'G', 'site': 0, 'bulk': False, 'occ': 0, 'els': els}
+        length = {0: 1, 1: 16, 2: 15, 3: 24}.get(m) if k % 4 == 1 else None
+        is_gas = (kind < 0.4 or m == 0)
+        if kind_mode == 'gas_only':
+            is_gas = True
+        elif kind_mode in ('surface_only', 'no_gas_species'):
+            is_gas = (kind_mode == 'surface_only' and m == 0)       # surface_only keeps one idle gas species
+        if is_gas:
+            d = {'name': _name(rnd, taken, '', length), 'ph': 'G', 'site': 0, 'bulk': False, 'occ': 0, 'els': els}
         else:
             j = rnd.randint(1, nsites)
-            d = {'name': _name(rnd, taken, rnd.choice(['(S)', '*', '(T)'])), 'ph': 'S', 'site': j,
+            d = {'name': _name(rnd, taken, rnd.choice(['(S)', '*', '(T)', '(S,T)']), length), 'ph': 'S', 'site': j,
                  'bulk': False, 'occ': rnd.choice([1, 1, 1, 2, 3]), 'els': els}
         d.update(_thermo(rnd))
         species.append(d)
-    for j in range(nsites):                      # bulk species present in the species list (mostly)
-        if rnd.random() < 0.8 and len(species) < 30:
-            d = {'name': sites[j]['bulk'], 'ph': 'S', 'site': j + 1, 'bulk': True, 'occ': 1,
-                 'els': {rnd.choice(['Pt', 'Ru', 'Cu']): 1}}
-            d.update(_thermo(rnd))
-            species.append(d)
+    for j in rnd.sample(range(nsites), nbulk):   # bulk species present in the species list (mostly)
+        d = {'name': sites[j]['bulk'], 'ph': 'S', 'site': j + 1, 'bulk': True, 'occ': 1,
+             'els': {rnd.choice(['Pt', 'Ru', 'Cu']): 1}}
+        d.update(_thermo(rnd))
+        species.append(d)
     case = {'cid': cid, 'kind': 'rand', 'species': species, 'sites': sites, 'ts': [], 'rx': []}
     idx = list(range(1, len(species) + 1))
     gas = [i for i in idx if species[i - 1]['ph'] == 'G']
-    nrx = rnd.randint(1, 40 if big else 10)
+    nongas = [i for i in idx if species[i - 1]['ph'] != 'G']
+    nrx = forced[0] if forced else rnd.randint(1, 40 if big else 10)
     seen = set()
-    p_ts = rnd.choice([0., 0.5, 1.])
+    p_ts = 1. if k % 12 == 5 else rnd.choice([0., 0.5, 1.])
     g2s_ok = rnd.random() < 0.3          # gaseous reactants with a non-gaseous product allowed
     tries = 0
-    while len(case['rx']) < nrx and tries < 400:
+    while len(case['rx']) < nrx and tries < 3000:
         tries += 1
         mode = rnd.random()
         pool = gas if (mode < 0.25 and gas) else idx
+        if kind_mode == 'surface_only':
+            pool = nongas
 
         def side():
-            k = rnd.randint(1, min(3, len(pool)))
-            return [[rnd.choice([1, 1, 1, 2, 3]), i] for i in rnd.sample(pool, k)]
+            n = rnd.randint(1, min(3, len(pool)))
+            return [[rnd.choice([1, 1, 1, 2, 3]), i] for i in rnd.sample(pool, n)]
         lhs, rhs = side(), side()
-        if mode > 0.85 and gas and g2s_ok:      # gaseous reactants, any products
+        if mode > 0.85 and gas and g2s_ok and kind_mode == 'mixed':      # gaseous reactants, any products
             lhs = [[rnd.choice([1, 2]), i] for i in rnd.sample(gas, rnd.randint(1, min(2, len(gas))))]
         rx = {'lhs': lhs, 'rhs': rhs}
         key = (tuple(sorted((i, c) for c, i in lhs)), tuple(sorted((i, c) for c, i in rhs)))
@@ -453,10 +561,10 @@ def random_case(rnd, cid, big):
             continue
         seen.add(key)
         case['rx'].append(_finish_rx(rnd, case, rx, p_ts))
-    if not case['rx']:
-        return random_case(rnd, cid, big)
+    if not case['rx'] or (forced and len(case['rx']) != nrx):
+        return random_case(rnd, cid, big, k + (0 if forced else 1))
     need_ts_free = any(not r['ads'] and not r['ts'] for r in case['rx'])
-    case['opts'] = _options(rnd, species, need_ts_free)
+    case['opts'] = _options(rnd, species, need_ts_free, k=k)
     return case
 
 
@@ -479,7 +587,7 @@ def _str(codes):
     return ''.join(chr(c) for c in codes)
 
 
-def tlc_case(rec, exp, rnd, cid, runs=None):
+def tlc_case(rec, exp, rnd, cid, runs=None, k=0):
     """A printed <<"CASE", Mech, Expected>> record -> concrete case."""
     sites = [{'name': _str(s['name']), 'bulk': _str(s['bulk']),
               'sden': float('%.4e' % rnd.uniform(1e-10, 5e-9)), 'dens': round(rnd.uniform(1., 25.), 1)}
@@ -496,18 +604,35 @@ def tlc_case(rec, exp, rnd, cid, runs=None):
         rx = {'lhs': [list(t) for t in r['lhs']], 'rhs': [list(t) for t in r['rhs']],
               'ads': bool(r['ads']) and rnd.random() < 0.6}
         case['rx'].append(_finish_rx(rnd, case, rx, p_ts))
-    case['opts'] = _options(rnd, species, any(not r['ads'] and not r['ts'] for r in case['rx']), runs)
+    case['opts'] = _options(rnd, species, any(not r['ads'] and not r['ts'] for r in case['rx']), runs, k)
     case['exp'] = {'gasrx': list(exp['gasrx']), 'gassp': [list(n) for n in exp['gassp']],
                    'sites': [{'name': list(s['name']), 'ads': [list(a) for a in s['ads']]} for s in exp['sites']],
                    'bulk': [list(b) for b in exp['bulk']], 'neag': exp['neag'], 'neas': exp['neas']}
     return case
 
 
+def _gas_rx(case, r):
+    sp = case['species']
+    return all(sp[i - 1]['ph'] == 'G' for c, i in r['lhs'] + r['rhs'])
+
+
 def _tags(case, file):
     sp = case['species']
+    o = case['opts']
     g2s = any(all(sp[i - 1]['ph'] == 'G' for c, i in r['lhs']) and
               any(sp[i - 1]['ph'] != 'G' for c, i in r['rhs']) for r in case['rx'])
-    return {'file': file, 'kind': case['kind'], 'gas_reactants_surface_product': g2s}
+    tags = {'file': file, 'kind': case['kind'], 'gas_reactants_surface_product': g2s}
+    if file in ('read_gas', 'read_surf'):
+        names = [s['name'] for s in sp if (s['ph'] == 'G') or file == 'read_surf']
+        if file == 'read_surf':
+            names += [x['name'] for x in case['sites']] + [x['bulk'] for x in case['sites']]
+        tags['hyphen_in_names'] = any('-' in n for n in names)
+    if file in ('gas', 'surf'):
+        # a BEP transition state in this file, asked for with a dimensionless method name
+        tags['bep_dimensionless'] = ('oRT' in o['act']) and any(
+            r['ts'] and case['ts'][r['ts'] - 1].get('kind') == 'bep' and _gas_rx(case, r) == (file == 'gas')
+            for r in case['rx'])
+    return tags
 
 
 def _file_of(ev):
@@ -544,7 +669,35 @@ def _exercised(cases, traces):
         'tube_rows', 'tflow_rows', 'dimensionless_act', 'spaced_delimiters',
         'ea_gibbs_plain_method', 'ea_gibbs_adsorption_method', 'run_pairs_equalT_diffP',
         'run_pairs_equal_TP', 'run_pairs_diffT_equalP', 'ea_entries_equalT_diffP_value_differs',
-        'activated_adsorption_entries')}
+        'activated_adsorption_entries',
+        'names_with_hyphen', 'names_with_comma', 'names_len_1', 'names_len_15_16', 'names_len_over_16',
+        'site_names_with_hyphen', 'mech_1_reaction', 'mech_2_reactions', 'mech_39_reactions', 'mech_40_reactions',
+        'mech_2_species', 'mech_3_species', 'mech_29_species', 'mech_30_species', 'mech_1_site', 'mech_3_sites',
+        'gas_only_mechanisms', 'surface_only_mechanisms', 'no_gas_species', 'gas_file_without_reactions',
+        'surf_file_without_reactions', 'runs_1', 'runs_8', 'frac_conditions_1', 'frac_conditions_8',
+        'all_species_in_tube', 'all_defaults', 'newline_crlf', 'rx_given_as_list', 'rx_given_as_Reactions',
+        'from_string_reactions', 'bep_transition_states', 'coefficient_3', 'same_species_both_sides',
+        'occupancy_above_1', 'stick_int_1')}
+    for m in ACTS:
+        ex['act_' + m] = 0
+    for m in ADS_ACTS:
+        ex['ads_act_' + m] = 0
+    for m in EA_ACTS:
+        ex['ea_act_' + m] = 0
+    for u in UNITS:
+        ex['unit_' + u] = 0
+    for x in NUMKINDS:
+        ex['numkind_' + x] = 0
+    for x in ('list', 'tuple', 'ndarray'):
+        ex['seq_' + x] = 0
+    for x in SDEN_OPS:
+        ex['sden_' + x] = 0
+    for x in FLOATS:
+        ex['ff_' + x] = 0
+    for x in RDELIMS:
+        ex['rd_' + x] = 0
+    for x in CDELIMS:
+        ex['cd_' + repr(x)] = 0
     for m in ACTS:
         ex[m + '_ts_above_floor'] = ex[m + '_ts_below_floor'] = 0
     for case, (tid, events) in zip(cases, traces):
@@ -569,6 +722,50 @@ def _exercised(cases, traces):
         ex['spaced_delimiters'] += (' ' in case['opts']['sd'] or ' ' in case['opts']['rd'])
         for k, v in events[0].get('acct', {}).items():
             ex[k] = ex.get(k, 0) + v
+        o = case['opts']
+        allnames = [x['name'] for x in sp]
+        ex['names_with_hyphen'] += sum('-' in n for n in allnames)
+        ex['names_with_comma'] += sum(',' in n for n in allnames)
+        ex['names_len_1'] += sum(len(n) == 1 for n in allnames)
+        ex['names_len_15_16'] += sum(len(n) in (15, 16) for n in allnames)
+        ex['names_len_over_16'] += sum(len(n) > 16 for n in allnames)
+        ex['site_names_with_hyphen'] += sum('-' in x['name'] for x in case['sites'])
+        for n in (1, 2, 39, 40):
+            ex['mech_%d_reaction%s' % (n, '' if n == 1 else 's')] += len(case['rx']) == n
+        for n in (2, 3, 29, 30):
+            ex['mech_%d_species' % n] += len(sp) == n
+        ex['mech_1_site'] += len(case['sites']) == 1
+        ex['mech_3_sites'] += len(case['sites']) == 3
+        ex['gas_only_mechanisms'] += all(kinds)
+        ex['surface_only_mechanisms'] += not any(kinds)
+        ex['no_gas_species'] += not any(x['ph'] == 'G' for x in sp)
+        ex['gas_file_without_reactions'] += not any(kinds)
+        ex['surf_file_without_reactions'] += all(kinds)
+        ex['runs_1'] += len(o['conds']) == 1
+        ex['runs_8'] += len(o['conds']) == 8
+        ex['frac_conditions_1'] += len(o['fracs']) == 1
+        ex['frac_conditions_8'] += len(o['fracs']) == 8
+        ex['all_species_in_tube'] += set(allnames) <= set(n for f in o['fracs'] for n in f)
+        ex['all_defaults'] += bool(o.get('defaults'))
+        ex['newline_crlf'] += o.get('newline') == '\r\n'
+        ex['rx_given_as_list'] += o.get('rx_container') == 'list'
+        ex['rx_given_as_Reactions'] += o.get('rx_container') == 'Reactions'
+        ex['from_string_reactions'] += sum(r.get('ctor') == 'from_string' for r in case['rx'])
+        ex['bep_transition_states'] += sum(1 for t in case['ts'] if t.get('kind') == 'bep')
+        ex['coefficient_3'] += sum(c == 3 for r in case['rx'] for c, i in r['lhs'] + r['rhs'])
+        ex['same_species_both_sides'] += sum(bool(set(i for c, i in r['lhs']) & set(i for c, i in r['rhs'])) for r in case['rx'])
+        ex['occupancy_above_1'] += sum(x['occ'] > 1 for x in sp)
+        ex['stick_int_1'] += sum(1 for r in case['rx'] if r['ads'] and r['stick'] == 1 and o.get('numkind') != 'float')
+        ex['act_' + o['act']] += 1
+        ex['ads_act_' + o['ads_act']] += 1
+        ex['ea_act_' + o['ea_act']] += 1
+        ex['unit_' + o['unit']] += 1
+        ex['numkind_' + o.get('numkind', 'float')] += 1
+        ex['seq_' + o.get('seq_container', 'list')] += 1
+        ex['sden_' + o['sden_op']] += 1
+        ex['ff_' + o['ff']] += 1
+        ex['rd_' + o['rd']] += 1
+        ex['cd_' + repr(o['cd'])] += 1
         ex['ea_gibbs_plain_method'] += case['opts']['ea_act'] == 'get_GoRT_act'
         ex['ea_gibbs_adsorption_method'] += case['opts']['ea_ads_act'] == 'get_GoRT_act'
         cs = case['opts']['conds']
@@ -660,10 +857,10 @@ def run(ctx):
         runlists = [[list(x) for x in rl] for rl in runlists[0]]
         rnd.shuffle(runlists)
         ctx.coverage['tlc_run_lists'] = len(runlists)
-        cases = [tlc_case(rec[1], rec[2], rnd, 't%d' % k, runlists[k % len(runlists)])
+        cases = [tlc_case(rec[1], rec[2], rnd, 't%d' % k, runlists[k % len(runlists)], k)
                  for k, rec in enumerate(recs)]
         for k in range(ctx.pick(240, 1500)):
-            cases.append(random_case(rnd, 'r%d' % k, big=(k % 4 == 0)))
+            cases.append(random_case(rnd, 'r%d' % k, big=(k % 4 == 0), k=k))
     results = core.pmap(_safe_execute, cases)
     traces = []
     for tid, (case, (events, mism)) in enumerate(zip(cases, results)):
